@@ -1,3 +1,121 @@
 package main
 
-func raceRecords(sp *propSpec, r *workerResult) []map[string]any { return nil }
+import (
+	"fmt"
+	"regexp"
+	"sort"
+	"strconv"
+	"strings"
+)
+
+// Race-detector and crash post-processing. Workers print VERIF-BEGIN/VERIF-END
+// markers to the same stream the Go race runtime reports to, and tasks run
+// strictly one at a time, so a report is attributed to the run during which it
+// was printed. ThreadSanitizer de-duplicates reports per process, hence every
+// signature is confirmed by re-running that one run in a fresh process.
+
+var (
+	frameFn  = regexp.MustCompile(`^  (\S+)\(\)$`)
+	accessRe = regexp.MustCompile(`^(previous )?(write|read|atomic write|atomic read) at 0x[0-9a-f]+ by (goroutine \d+|main goroutine)`)
+)
+
+type raceHit struct {
+	sig    string
+	run    int64
+	detail string
+}
+
+func isOrigamiFrame(fn string) bool {
+	if !strings.HasPrefix(fn, modPath+"/") && !strings.HasPrefix(fn, modPath+".") {
+		return false
+	}
+	if strings.Contains(fn, "/verifsim.") || strings.Contains(fn, "/verifharness/") {
+		return false
+	}
+	return true
+}
+
+func parseRaces(id, stderr string) (hits []raceHit, harnessOnly int) {
+	lines := strings.Split(stderr, "\n")
+	run := int64(-1)
+	for i := 0; i < len(lines); i++ {
+		l := lines[i]
+		if m := beginRe.FindStringSubmatch(l); m != nil {
+			run, _ = strconv.ParseInt(m[1], 10, 64)
+			continue
+		}
+		if !strings.HasPrefix(l, "WARNING: DATA RACE") {
+			continue
+		}
+		// one report: sections until the closing ==================
+		var sides []string
+		var detail []string
+		var cur string // access kind of the current section
+		got := false
+		j := i + 1
+		for ; j < len(lines) && !strings.HasPrefix(lines[j], "=================="); j++ {
+			x := lines[j]
+			lx := strings.ToLower(x)
+			if m := accessRe.FindStringSubmatch(lx); m != nil {
+				cur = "r"
+				if strings.Contains(m[2], "write") {
+					cur = "w"
+				}
+				got = false
+				detail = append(detail, strings.TrimSpace(x))
+				continue
+			}
+			if strings.HasPrefix(x, "Goroutine ") || strings.HasPrefix(x, "Mutex ") {
+				cur = ""
+				continue
+			}
+			if cur == "" || got {
+				continue
+			}
+			if m := frameFn.FindStringSubmatch(x); m != nil && isOrigamiFrame(m[1]) {
+				fn := strings.TrimPrefix(m[1], modPath+"/")
+				sides = append(sides, fn+":"+cur)
+				detail = append(detail, "    "+fn)
+				got = true
+			}
+		}
+		i = j
+		if len(sides) < 2 {
+			harnessOnly++
+			continue
+		}
+		if run < 0 {
+			continue // printed while minimising another finding: belongs to no run
+		}
+		sort.Strings(sides)
+		hits = append(hits, raceHit{sig: fmt.Sprintf("%s/race/%s|%s", id, sides[0], sides[1]), run: run,
+			detail: "race detector report: " + strings.Join(detail, " ")})
+	}
+	return hits, harnessOnly
+}
+
+var fatalRe = regexp.MustCompile(`(?m)^fatal error: (.*)$`)
+
+func raceRecords(sp *propSpec, r *workerResult) []map[string]any {
+	var out []map[string]any
+	seen := map[string]bool{}
+	hits, _ := parseRaces(sp.ID, r.stderr)
+	for _, h := range hits {
+		if seen[h.sig] {
+			continue
+		}
+		seen[h.sig] = true
+		out = append(out, map[string]any{"expected_signature": h.sig, "run": h.run, "detail": h.detail, "_needs_record": true})
+	}
+	if !r.finished {
+		if m := fatalRe.FindStringSubmatch(r.stderr); m != nil {
+			run := int64(-1)
+			for _, b := range beginRe.FindAllStringSubmatch(r.stderr, -1) {
+				run, _ = strconv.ParseInt(b[1], 10, 64)
+			}
+			out = append(out, map[string]any{"expected_signature": fmt.Sprintf("%s/fatal/%s", sp.ID, m[1]), "run": run,
+				"detail": "the Go runtime aborted the process: fatal error: " + m[1], "_needs_record": true})
+		}
+	}
+	return out
+}
